@@ -105,17 +105,21 @@ def rule_SH(run: Run) -> RuleResult:
                 why or f"{len(ps)} paths: switch on -> _disabled_{kind}_cache_handler(request), switch off -> backend", nec)
         deco = [ast.unparse(d) for d in fi.node.decorator_list]
         res.add(f"labrea.cache._{kind}_cache_handler:registered for {req}", deco == [f"{req}.handle"], cm.relpath, fi.node.lineno, f"{deco}", nec)
-    cd = repo.func("labrea.cache._cache_disabled")
-    consts = [n.value for n in ast.walk(cd.node) if isinstance(n, ast.Constant) and isinstance(n.value, str)]
-    rets = [r.value for r in ast.walk(cd.node) if isinstance(r, ast.Return)]
-    ok = "LABREA.CACHE.DISABLED" in consts and "LABREA.CACHE.DISABLE" in consts and len(rets) == 1 and isinstance(rets[0], ast.Call) \
-        and ast.unparse(rets[0].args[0]) == "request.options" if rets and isinstance(rets[0], ast.Call) and rets[0].args else False
-    if ok:
-        # Option('…DISABLED', Option('…DISABLE', False))(request.options)
-        inner = rets[0].func
-        ok = isinstance(inner, ast.Call) and astu.short_name(inner) == "Option" and len(inner.args) == 2 and isinstance(inner.args[1], ast.Call) \
-            and astu.short_name(inner.args[1]) == "Option" and len(inner.args[1].args) == 2 and isinstance(inner.args[1].args[1], ast.Constant) and inner.args[1].args[1].value is False
-    res.add("labrea.cache._cache_disabled:consults both option spellings, default False", ok, cm.relpath, cd.node.lineno, f"{consts}", nec)
+    cd, cps = _paths_fn(run, "labrea.cache._cache_disabled")
+    looked = set()
+    on_opts = True
+    falls_false = False
+    for p in cps:
+        for e in p.events:
+            if e.kind == "call" and e.text.endswith("get_dotted_key") and len(e.args) >= 2:
+                looked.add(e.args[0].key())
+                if e.args[1].key() != "attr:options(request)":
+                    on_opts = False
+        if p.status == "ret" and p.ret is not None and ("Const(False)" in p.ret.key()):
+            falls_false = True
+    ok = looked == {"Const('LABREA.CACHE.DISABLED')", "Const('LABREA.CACHE.DISABLE')"} and on_opts and falls_false
+    res.add("labrea.cache._cache_disabled:consults both option spellings, default False", ok, cm.relpath, cd.node.lineno,
+            f"looks up {sorted(looked)} in request.options={on_opts}; falls back to False={falls_false}", nec)
     dis = repo.func("labrea.cache.disabled")
     mapping = {}
     for n in ast.walk(dis.node):
@@ -125,11 +129,30 @@ def rule_SH(run: Run) -> RuleResult:
     want = {"CacheSetRequest": "_disabled_set_cache_handler", "CacheGetRequest": "_disabled_get_cache_handler", "CacheExistsRequest": "_disabled_exists_cache_handler"}
     res.add("labrea.cache.disabled:swaps exactly the three cache handlers for their disabled twins", mapping == want, cm.relpath, dis.node.lineno, f"{mapping}", nec)
     lm = repo.modules["labrea.logging"]
-    bh = repo.func("labrea.logging._builtin_logging_handler")
-    st = _first_stmts(bh.node)
-    ok = bool(st) and isinstance(st[0], ast.If) and ast.unparse(st[0].test) == "Option('LABREA.LOGGING.DISABLED', False)(request.options)" \
-        and [ast.unparse(x) for x in st[0].body] == ["return _disabled_logging_handler(request)"]
-    res.add("labrea.logging._builtin_logging_handler:tests LABREA.LOGGING.DISABLED first", ok, lm.relpath, bh.node.lineno, ast.unparse(st[0])[:120] if st else "", nec)
+    bh, bps = _paths_fn(run, "labrea.logging._builtin_logging_handler", no_inline=("_disabled_logging_handler",))
+    ok = bool(bps)
+    why = ""
+    saw_on = saw_off = False
+    for p in bps:
+        if p.status != "ret":
+            continue
+        looks = [i for i, e in enumerate(p.events) if e.kind == "call" and e.text.endswith("get_dotted_key") and e.args and e.args[0].key() == "Const('LABREA.LOGGING.DISABLED')"
+                 and len(e.args) > 1 and e.args[1].key() == "attr:options(request)"]
+        emits = [i for i, e in enumerate(p.events) if e.kind == "call" and e.text == "log"]
+        if not looks:
+            ok = False
+            why = "a path does not look LABREA.LOGGING.DISABLED up in request.options"
+            continue
+        if emits and emits[0] < looks[0]:
+            ok = False
+            why = "a record is emitted before the switch is consulted"
+        if emits:
+            saw_off = True
+        else:
+            saw_on = True
+    ok = ok and saw_on and saw_off
+    res.add("labrea.logging._builtin_logging_handler:tests LABREA.LOGGING.DISABLED first", ok, lm.relpath, bh.node.lineno,
+            why or "the switch is looked up in request.options before anything is emitted; one outcome emits, the other does not", nec)
     logs = [c for c in astu.calls_in(bh.node) if astu.short_name(c) == "log"]
     ok = len(logs) == 1 and ast.unparse(logs[0]) == "logging.getLogger(request.name).log(request.level, request.msg)"
     res.add("labrea.logging._builtin_logging_handler:emits request.msg at request.level on the named logger", ok, lm.relpath, bh.node.lineno, f"{[ast.unparse(c) for c in logs]}", nec)
@@ -342,18 +365,11 @@ def rule_RQ(run: Run) -> RuleResult:
     for cn, meth, reqs in (("Cached", "evaluate", {"CacheExistsRequest", "CacheGetRequest", "CacheSetRequest"}), ("Cached", "validate", {"CacheExistsRequest"}),
                            ("Logged", "evaluate", {"LogRequest"}), ("Option", "evaluate", {"TypeValidationRequest"}), ("LogEffect", "transform", {"LogRequest"})):
         c = repo.cls(cn)
-        bodies = [c.methods[meth]] + [c.methods[x.func.attr] for x in astu.calls_in(c.methods[meth]) if isinstance(x.func, ast.Attribute) and astu.is_self_attr(x.func) and x.func.attr in c.methods]
         found = set()
-        for b in bodies:
-            amap_b = astu.single_assign_map(b)
-            for x in astu.calls_in(b):
-                if isinstance(x.func, ast.Attribute) and x.func.attr == "run" and not x.args:
-                    inner = astu.expand_locals(x.func.value, amap_b)
-                    if isinstance(inner, ast.Call):
-                        nm2 = astu.short_name(inner)
-                        if nm2 == "_request":
-                            nm2 = "LogRequest"
-                        found.add(nm2)
+        for p_ in analyse_method(Ctx(repo), c, meth):
+            for e in p_.events:
+                if e.kind == "call" and e.text == "run" and isinstance(e.target, Sym) and e.target.head.startswith("new:"):
+                    found.add(e.target.head[4:])
         n += 1
         res.add(f"{c.qualname}.{meth}:issues {sorted(reqs)} via .run()", reqs <= found, c.module.relpath, c.methods[meth].lineno, f"found {sorted(found)}", nec)
     res.count("sites", n)
@@ -667,7 +683,7 @@ def rule_SK(run: Run) -> RuleResult:
                     tgt = e.target
                     if e.kind in ("op", "call") and (e.op in ("keys", "explain") or e.text in ("keys", "explain", "fingerprint")) and isinstance(tgt, Sym) and tgt.head == "global":
                         bad.append((e.line, tgt.text))
-                    if e.kind == "op" and e.op in ("keys",) and isinstance(tgt, New) and tgt.cls.name == "Option":
+                    if e.kind in ("op", "unfold") and e.op in ("keys",) and isinstance(tgt, New) and tgt.cls.name == "Option":
                         k = tgt.attrs.get("key")
                         if isinstance(k, Const) and isinstance(k.v, str) and k.v.startswith("LABREA."):
                             bad.append((e.line, k.v))
